@@ -363,9 +363,13 @@ class ScipyOptimizeDriver(Driver):
                         ub = upper
                     
                     if linear:
-                        # LinearConstraint
-                        con = LinearConstraint(A=lincongrad[self._con_idx[name]],
-                                               lb=lb, ub=ub, keep_feasible=True)
+                        # LinearConstraint: all rows of this constraint; scipy evaluates A @ x, so
+                        # the constant term of the (affine) constraint moves into the bounds.
+                        row0 = self._con_idx[name]
+                        A = np.atleast_2d(lincongrad[row0:row0 + size])
+                        offset = self._con_cache[name] - A @ x_init
+                        con = LinearConstraint(A=A, lb=lb - offset, ub=ub - offset,
+                                               keep_feasible=True)
                         constraints.append(con)
                     else:
                         # NonlinearConstraint
